@@ -496,6 +496,9 @@ impl Local {
             outcomes: BTreeMap::new(),
         }
     }
+    pub fn for_replay() -> Self {
+        Self::new()
+    }
     pub fn outcome(&mut self, name: &'static str) {
         *self.outcomes.entry(name).or_insert(0) += 1;
     }
